@@ -7,7 +7,9 @@
 """utilities for analyzing expressions and blocks of Python
 code, as well as generating Python from AST nodes"""
 
+import io
 import re
+import tokenize
 
 from mako import exceptions
 from mako import pyparser
@@ -95,14 +97,13 @@ class PythonFragment(PythonCode):
     """
 
     def __init__(self, code, **exception_kwargs):
-        m = re.match(r"^(\w+)(?:\s+(.*?))?:\s*(#|$)", code.strip(), re.S)
+        code = self._strip_comment(code.strip())
+        m = re.match(r"^(\w+)(?:\s*(.*?))?:\s*$", code, re.S)
         if not m:
             raise exceptions.CompileException(
                 "Fragment '%s' is not a partial control statement" % code,
                 **exception_kwargs,
             )
-        if m.group(3):
-            code = code[: m.start(3)]
         keyword, expr = m.group(1, 2)
 
         # a statement that is only valid as a continuation is completed by
@@ -131,6 +132,21 @@ class PythonFragment(PythonCode):
                 **exception_kwargs,
             )
         super().__init__(code, lineno_offset=lineno_offset, **exception_kwargs)
+
+    @staticmethod
+    def _strip_comment(code):
+        """remove a trailing comment; a '#' inside a string literal is
+        not one."""
+
+        lines = code.splitlines(True)
+        try:
+            for tok in tokenize.generate_tokens(io.StringIO(code).readline):
+                if tok.type == tokenize.COMMENT:
+                    row, col = tok.start
+                    return "".join(lines[: row - 1]) + lines[row - 1][:col]
+        except (tokenize.TokenError, SyntaxError):
+            pass
+        return code
 
 
 class FunctionDecl:
